@@ -624,3 +624,41 @@ def no_aliased_containers(ctx, rule, prefixes, floor, why):
                 ctx.bad(rule, q, 'one container for several places: %s' % U(node)[:80], why, None, node)
     if ctx.floor(rule, prefixes[0], n, floor, 'assignments in %s' % ', '.join(prefixes)) and not bad:
         ctx.ok(rule, prefixes[0], 'no freshly built container is bound to two places by one chained assignment (%d assignments)' % n)
+
+
+def negated_slice_bounds(ctx, rule, prefixes, lower_bounds, floor, why):
+    """`x[-e:]` / `x[:-e]` mean "the last e" / "all but the last e" only for e >= 1: for e == 0 they are the WHOLE string / the EMPTY
+    string.  Every slice bound of the form -<expression> is put in linear form over the quantities whose (attained) lower bounds
+    are tabulated in `lower_bounds`; lower bound >= 1 discharges, <= 0 is a violation (the tabulated minimum is a supported
+    configuration), an untabulated quantity is undecided."""
+    n = 0
+    bad = False
+    for rel, m in sorted(ctx.repo.modules.items()):
+        if not rel.startswith(tuple(prefixes)):
+            continue
+        for q_, fn in sorted(m.funcs.items()):
+            stores = stores_in(fn)
+            for node in walk_local(fn):
+                if not isinstance(node, ast.Slice):
+                    continue
+                n += 1
+                for b in (node.lower, node.upper):
+                    if not (isinstance(b, ast.UnaryOp) and isinstance(b.op, ast.USub)):
+                        continue
+                    if const(b.operand) is not NOCONST:
+                        continue
+                    e = expand(fn, b.operand, stores)
+                    l = lin(e)
+                    q = '%s::%s' % (rel, q_)
+                    if l is None or any(a not in lower_bounds or c < 0 for a, c in l.t.items()):
+                        bad = True
+                        ctx.unk(rule, q, 'slice bound -(%s): no lower bound known for the expression' % U(e)[:60])
+                        continue
+                    lb = l.c + sum(c * lower_bounds[a] for a, c in l.t.items())
+                    if lb >= 1:
+                        ctx.ok(rule, q, 'slice bound -(%s) with %s >= %s' % (U(e), U(e), lb))
+                    else:
+                        bad = True
+                        ctx.bad(rule, q, 'slice bound -(%s) can be -0' % U(e)[:60], why, {'lower_bound': lb, 'table': lower_bounds}, node)
+    if ctx.floor(rule, prefixes[0], n, floor, 'slices in %s' % ', '.join(prefixes)) and not bad:
+        ctx.ok(rule, prefixes[0], 'no slice bound of the form -<expression> can be -0 (%d slices)' % n)
